@@ -367,7 +367,8 @@ mod p8 {
     pub const ISOLATED_DECODE_PANICS: usize = 14;
     pub const TRUNCATED_REJECTED: usize = 15;
     pub const HUGE_CAPACITY: usize = 16;
-    pub const NAMES: [&str; 17] = [
+    pub const MORE_THAN_65535_RESULTS: usize = 17;
+    pub const NAMES: [&str; 18] = [
         "segment_of_exactly_N_bytes",
         "unterminated_tail_of_exactly_N_bytes",
         "chunk_with_3_or_more_sentinels",
@@ -385,6 +386,7 @@ mod p8 {
         "isolated_decode_panicked_segment_skipped",
         "truncated_but_correctly_framed_encoding_rejected",
         "capacity_65535_or_more",
+        "more_than_65535_results_from_one_accumulator",
     ];
 }
 
@@ -671,6 +673,9 @@ fn c08_history<const N: usize>(
     }
     if N >= 65535 {
         out.probe(p8::HUGE_CAPACITY);
+    }
+    if results > 65535 {
+        out.probe(p8::MORE_THAN_65535_RESULTS);
     }
     if !t.tail.is_empty() {
         out.probe(p8::TAIL_PENDING_AT_END);
@@ -1249,14 +1254,24 @@ fn gen_huge(rng: &mut Rng, overflow: bool) -> AccTrace {
 /// A long-lived accumulator: hundreds to thousands of small frames through one object (state that
 /// is carried over, wraps or accumulates only shows after many operations).
 fn gen_long(rng: &mut Rng, overflow: bool) -> AccTrace {
-    let n = *rng.pick(&[4usize, 8, 16, 32, 64]);
+    let count = *rng.pick(&[300usize, 257, 513, 1000, 2000]);
+    gen_long_with(rng, overflow, count)
+}
+
+/// More frames through one accumulator than 16 bits can count.
+fn gen_very_long(rng: &mut Rng, overflow: bool) -> AccTrace {
+    let count = *rng.pick(&[65535usize, 65536, 65537, 66000, 70000]);
+    gen_long_with(rng, overflow, count)
+}
+
+fn gen_long_with(rng: &mut Rng, overflow: bool, count: usize) -> AccTrace {
+    let n = if count > 60000 { *rng.pick(&[4usize, 8, 16]) } else { *rng.pick(&[4usize, 8, 16, 32, 64]) };
     let cfg = GenCfg { max_depth: 1, max_fan: 2, budget: n.saturating_sub(2).min(6), kinds: shape::K_ALL };
     let shape = match rng.below(3) {
         0 => Shape::U8,
         1 => Shape::Bytes,
         _ => Shape::Tuple(vec![Shape::U8, Shape::Bool]),
     };
-    let count = *rng.pick(&[300usize, 257, 513, 1000, 2000]);
     let mut segments = Vec::with_capacity(count);
     for _ in 0..count {
         let seg = match rng.below(12) {
@@ -1526,6 +1541,8 @@ impl Scenario for C08 {
             gen_huge(rng, false)
         } else if run % 997 == 2 {
             gen_long(rng, false)
+        } else if run % 49_999 == 3 && !crate::runner::small() {
+            gen_very_long(rng, false)
         } else {
             gen_acc_trace(rng, &o, None)
         }
@@ -1604,7 +1621,8 @@ mod p9 {
     pub const WINDOW_UNCHANGED_ONCE: usize = 5;
     pub const ISOLATED_DECODE_PANICS: usize = 6;
     pub const HUGE_CAPACITY: usize = 7;
-    pub const NAMES: [&str; 8] = [
+    pub const MORE_THAN_65535_SEGMENTS: usize = 8;
+    pub const NAMES: [&str; 9] = [
         "well_formed_frame_delivered_right_after_an_overflowed_segment",
         "well_formed_frame_delivered_right_after_garbage",
         "well_formed_frames_delivered",
@@ -1613,6 +1631,7 @@ mod p9 {
         "call_returned_its_window_unchanged",
         "isolated_decode_panicked",
         "capacity_65535_or_more",
+        "more_than_65535_segments_through_one_accumulator",
     ];
 }
 
@@ -1895,6 +1914,9 @@ fn c09_history<const N: usize>(
     if N >= 65535 {
         out.probe(p9::HUGE_CAPACITY);
     }
+    if t.segments.len() > 65535 {
+        out.probe(p9::MORE_THAN_65535_SEGMENTS);
+    }
     if any_overflow && frame_after_overflow {
         if let Chunks::List(_) = t.chunks {
             sig.usize(lens.len().min(8));
@@ -1970,6 +1992,8 @@ impl Scenario for C09 {
             gen_huge(rng, true)
         } else if run % 997 == 2 {
             gen_long(rng, true)
+        } else if run % 49_999 == 3 && !crate::runner::small() {
+            gen_very_long(rng, true)
         } else {
             gen_acc_trace(rng, &o, None)
         }
